@@ -4,6 +4,7 @@ import hashlib
 import io
 import json
 import os
+import re
 import shutil
 import signal
 import subprocess
@@ -29,13 +30,26 @@ class HarnessError(Exception):
     pass
 
 
+RUN_DIGESTS = []  # digests of the runs executed by this (worker) process since it was last cleared
+
+
 def scratch_base():
     base = os.environ.get("RP2SIM_SCRATCH")
     if not base:
         base = "/dev/shm" if os.path.isdir("/dev/shm") and os.access("/dev/shm", os.W_OK) else (os.environ.get("TMPDIR") or "/tmp")
-    d = os.path.join(base, "rp2sim-%d" % os.getuid())
+    session = os.environ.get("RP2SIM_SESSION")
+    if not session:
+        session = "s%d" % os.getpid()
+        os.environ["RP2SIM_SESSION"] = session  # inherited by workers and replay subprocesses of this invocation
+    d = os.path.join(base, "rp2sim-%d" % os.getuid(), session)
     os.makedirs(d, exist_ok=True)
     return d
+
+
+def cleanup_session():
+    """Remove whatever this invocation left on the scratch file system."""
+    if os.environ.get("RP2SIM_SESSION") == "s%d" % os.getpid():
+        shutil.rmtree(scratch_base(), ignore_errors=True)
 
 
 def ensure_shim():
@@ -231,6 +245,9 @@ def run(w, world_files, opts, host=None, faults=None, crash_at=None, dump=False,
     Returns a result dict.
     """
     host = dict(host or {})
+    opts = dict(opts)
+    if opts.get("outdir") == "ABS":
+        opts["outdir"] = os.path.join(w.world, "abs out")
     if src:
         host["src"] = src
     src_root = host.get("src") or DEFAULT_SRC
@@ -302,7 +319,7 @@ def run(w, world_files, opts, host=None, faults=None, crash_at=None, dump=False,
         stdout = fh.read().decode("utf-8", "replace")
     with open(os.path.join(rundir, "stderr"), "rb") as fh:
         stderr = fh.read().decode("utf-8", "replace")
-    res = {"rc": rc, "timed_out": timed_out, "wall": wall, "stdout": stdout, "stderr": stderr, "argv": argv, "layout": layout,
+    res = {"rc": rc, "timed_out": timed_out, "aslr": bool(host.get("aslr", False)), "wall": wall, "stdout": stdout, "stderr": stderr, "argv": argv, "layout": layout,
            "before": before, "after": after, "child": None, "cmd_env": {k: v for k, v in env.items() if k not in ("LD_PRELOAD", "PATH")}}
     rp = spec["result_path"]
     if os.path.exists(rp):
@@ -331,8 +348,65 @@ def run(w, world_files, opts, host=None, faults=None, crash_at=None, dump=False,
             if os.path.isfile(p) and name.endswith(".ods"):
                 reports[name] = inspect_report(p, keep=keep_content)
     res["reports"] = reports
+    res["digest"] = digest(res, w)
+    RUN_DIGESTS.append(res["digest"])
     shutil.rmtree(rundir, ignore_errors=True)
     return res
+
+
+def digest(res, w):
+    """sha256 over everything recorded about a run, with the scratch root replaced by $R (the only
+    normalisation): exit status, stdout/stderr, event log, fault log, clock statistics, dumps, the
+    complete after-listing of the world (whole-file hashes: reports are compared bit for bit,
+    meta.xml and zip entry times included; log files are hashed after the same $R replacement)."""
+    root = w.root
+
+    def norm(obj):
+        if isinstance(obj, str):
+            return obj.replace(root, "$R")
+        if isinstance(obj, dict):
+            return {k: norm(v) for k, v in obj.items()}
+        if isinstance(obj, (list, tuple)):
+            return [norm(v) for v in obj]
+        return obj
+
+    # Heap object addresses are not owned by the simulator: even under setarch -R they vary between identical runs (allocator state of
+    # the C libraries), so the "<... object at 0x...>" texts of DEBUG logs are normalised; everything else is compared bit for bit.
+    aslr_on = True
+    addr = re.compile(rb"0x[0-9a-f]{6,16}")
+    keep_mtime = {os.path.relpath(p, res["layout"]["world"]) for p in (res["layout"].get("config"), res["layout"].get("input")) if p}
+    after = {}
+    for rel, meta in res["after"].items():
+        m = list(meta)
+        if m[0] == "f" and rel.startswith(os.path.join("work", "log") + os.sep):
+            try:
+                with open(os.path.join(w.world, rel), "rb") as fh:
+                    data = fh.read().replace(root.encode(), b"$R")
+                    if aslr_on:
+                        data = addr.sub(b"0xADDR", data)  # real ASLR was requested for this run: object addresses in DEBUG logs are not owned by the simulator
+                    m[2] = hashlib.sha256(data).hexdigest()
+                    m[1] = -1
+            except OSError:
+                pass
+        if rel not in keep_mtime:
+            m[4] = 0  # mtimes are assigned by the kernel from the real clock (tmpfs), which the simulator does not own
+        after[rel] = m
+    child = res.get("child") or {}
+    def text(t):
+        t = norm(t)
+        return addr.sub(b"0xADDR", t.encode()).decode() if aslr_on else t
+
+    doc = {"rc": res["rc"], "timed_out": res["timed_out"], "stdout": text(res["stdout"]), "stderr": text(res["stderr"]), "argv": norm(res["argv"]),
+           "events": norm(child.get("events")), "faults": norm(child.get("faults")), "clock": child.get("clock"), "dumps": child.get("dumps"),
+           "io_steps": child.get("io_steps"), "crashed": child.get("crashed"), "imports": child.get("imports"), "after": after,
+           "quiet_reads": child.get("quiet_reads")}
+    h = hashlib.sha256(json.dumps(doc, sort_keys=True, default=str).encode()).hexdigest()
+    dump_dir = os.environ.get("RP2SIM_DIGEST_DUMP")
+    if dump_dir:
+        os.makedirs(dump_dir, exist_ok=True)
+        with open(os.path.join(dump_dir, h + ".json"), "w", encoding="utf-8") as fh:
+            json.dump(doc, fh, sort_keys=True, default=str, indent=0)
+    return h
 
 
 def rel_in_world(res, path):
